@@ -104,7 +104,8 @@ Fixpoint read_n {A} (fuel : nat) (f : R -> outcome (A * R)) (m : N) (r : R) (lab
 Definition sect {A} (label : string) (o : outcome A) : outcome A :=
   match o with Err _ => Err (lbl label) | x => x end.
 
-Definition load (r : R) : outcome parts :=
+(* load_r also returns the reader after the last section, for the proofs *)
+Definition load_r (r : R) : outcome (parts * R) :=
   let '(m1, r) := r_readfull ops 2 r in
   if (length m1 <? 2)%nat then Err (lbl "missing magic header") else
   if negb (bytes_eqb m1 magic) then Err (lbl "invalid magic header") else
@@ -126,9 +127,10 @@ Definition load (r : R) : outcome parts :=
     do '(m, r) <- sect "lfs size" (uvarint_from_buf r) ;;
     do '(lfs, r) <- read_n (S (r_left ops r)) uvarint_from_buf m r (lbl "lfs") ;;
     (* trailing Read: io.EOF -> nil; a further byte is read with a nil error -> nil as well *)
-    Ok {| p_name := name; p_code := code; p_consts := consts; p_pos := pos; p_lfs := lfs |}
+    Ok ({| p_name := name; p_code := code; p_consts := consts; p_pos := pos; p_lfs := lfs |}, r)
   | _ => Err (lbl "missing bcode major/minor version")
   end.
+Definition load (r : R) : outcome parts := do '(p, _) <- load_r r ;; Ok p.
 End Load.
 
 Definition load_bytes (b : bytes) : outcome parts := load aops b.
